@@ -122,8 +122,20 @@ def set_store(
             )
         from .codecs.databricks import DBFSStore, CommitType, DBFSURI
 
+        # The documented spellings ('none', 'links_only', 'full') and the names of the enumeration.
+        commit_types = {
+            "NONE": CommitType.NO_COMMIT,
+            "NO_COMMIT": CommitType.NO_COMMIT,
+            "LINKS_ONLY": CommitType.LINK_ONLY,
+            "LINK_ONLY": CommitType.LINK_ONLY,
+            "FULL": CommitType.FULL,
+        }
         commit_type = str(commit_type or CommitType.FULL.name).upper()
-        commit_type_ = CommitType[commit_type]
+        if commit_type not in commit_types:
+            raise DDSException(
+                f"Unknown commit type {commit_type}. Accepted values: 'none', 'links_only', 'full'"
+            )
+        commit_type_ = commit_types[commit_type]
 
         _store_var = DBFSStore(
             DBFSURI.parse(internal_dir), DBFSURI.parse(data_dir), dbutils, commit_type_
